@@ -133,3 +133,127 @@ package inprocgrpc
 //@   assert_call[C02] (*inProcessServerStream).finish : with_the_handlers_error: arg0 == serverStream && (called("grpc.StreamDesc.Handler") ==> arg1 == lastresult("grpc.StreamDesc.Handler")) && (called("grpc.StreamServerInterceptor") ==> arg1 == lastresult("grpc.StreamServerInterceptor"))
 //@   assert_call[C05] var:svrCancel : after_finish: called("(*inProcessServerStream).finish")
 //@   modifies everything
+
+// ---- inProcessServerStream (C03, C05, C01, C06, C20) ----
+//
+//@ type inProcessServerStream
+//@   guarded_by mu : headers, trailers, state
+//@   closes_under mu : responses
+//@   invariant[C05] responses_closed_exactly_when_the_stream_is_closed: closed(self.responses) <==> self.state == 2
+//@   invariant[C03] state_is_valid: 0 <= self.state && self.state <= 2 && self.responses != nil
+//
+//@ func (*inProcessServerStream).TrySetTrailer
+//@   ensures[C03] closed_stream_trailers_refused_and_nothing_changes: at_lock(s.state == 2) ==> result != nil && s.trailers == at_lock(s.trailers) && (forall k string :: has(s.trailers, k) == at_lock(has(s.trailers, k)) && s.trailers[k] == at_lock(s.trailers[k]))
+//@   loop loop#1 invariant[C03] map_ready: md != at_lock(s.trailers) ==> s.trailers != nil && s.trailers != md && !(s.state == 2) && held(&s.mu) && (at_lock(s.trailers) != nil ==> s.trailers == at_lock(s.trailers))
+//@   loop loop#1 invariant[C03] visited_keys_grew_others_unchanged: md != at_lock(s.trailers) ==> (forall k string :: (iter_visited(k) && has(md, k) ==> has(s.trailers, k) && len(s.trailers[k]) == at_lock(len(s.trailers[k])) + len(md[k])) && (!iter_visited(k) ==> has(s.trailers, k) == at_lock(has(s.trailers, k)) && (has(s.trailers, k) ==> s.trailers[k] == at_lock(s.trailers[k]))))
+//@   loop loop#1 invariant[C03] source_map_unchanged: md != at_lock(s.trailers) ==> (forall k string :: has(md, k) == at_lock(has(md, k)) && md[k] == at_lock(md[k]) && (iter_visited(k) ==> has(md, k)))
+//@   ensures[C03] every_given_key_grows_by_its_values: !at_lock(s.state == 2) && md != at_lock(s.trailers) ==> (forall k string :: has(md, k) ==> has(s.trailers, k) && len(s.trailers[k]) == at_lock(len(s.trailers[k])) + len(md[k]))
+//@   ensures[C03] other_keys_keep_their_values: !at_lock(s.state == 2) && md != at_lock(s.trailers) ==> (forall k string :: !has(md, k) ==> has(s.trailers, k) == at_lock(has(s.trailers, k)) && (has(s.trailers, k) ==> s.trailers[k] == at_lock(s.trailers[k])))
+//@   ensures[C03] open_stream_accepts_trailers: !at_lock(s.state == 2) ==> result == nil
+//@   modifies s.trailers, maps("metadata.MD"), mem("string")
+//
+//@ func (*inProcessServerStream).setHeader
+//@   ensures[C03] headers_after_they_were_sent_refused_and_nothing_changes: at_lock(s.state != 0) ==> result != nil && s.headers == at_lock(s.headers) && (forall k string :: has(s.headers, k) == at_lock(has(s.headers, k)) && s.headers[k] == at_lock(s.headers[k]))
+//@   loop loop#1 invariant[C03] map_ready: md != at_lock(s.headers) ==> s.headers != nil && s.headers != md && !(s.state != 0) && held(&s.mu) && (at_lock(s.headers) != nil ==> s.headers == at_lock(s.headers))
+//@   loop loop#1 invariant[C03] visited_keys_grew_others_unchanged: md != at_lock(s.headers) ==> (forall k string :: (iter_visited(k) && has(md, k) ==> has(s.headers, k) && len(s.headers[k]) == at_lock(len(s.headers[k])) + len(md[k])) && (!iter_visited(k) ==> has(s.headers, k) == at_lock(has(s.headers, k)) && (has(s.headers, k) ==> s.headers[k] == at_lock(s.headers[k]))))
+//@   loop loop#1 invariant[C03] source_map_unchanged: md != at_lock(s.headers) ==> (forall k string :: has(md, k) == at_lock(has(md, k)) && md[k] == at_lock(md[k]) && (iter_visited(k) ==> has(md, k)))
+//@   ensures[C03] every_given_key_grows_by_its_values: !at_lock(s.state != 0) && md != at_lock(s.headers) && !send ==> (forall k string :: has(md, k) ==> has(s.headers, k) && len(s.headers[k]) == at_lock(len(s.headers[k])) + len(md[k]))
+//@   ensures[C03] other_keys_keep_their_values: !at_lock(s.state != 0) && md != at_lock(s.headers) && !send ==> (forall k string :: !has(md, k) ==> has(s.headers, k) == at_lock(has(s.headers, k)) && (has(s.headers, k) ==> s.headers[k] == at_lock(s.headers[k])))
+//@   ensures[C03] send_flushes_through_sendHeadersLocked: send && !at_lock(s.state != 0) ==> calls("(*inProcessServerStream).sendHeadersLocked") == 1 && result == lastresult("(*inProcessServerStream).sendHeadersLocked")
+//@   ensures[C03] plain_set_sends_nothing: !send ==> !called("(*inProcessServerStream).sendHeadersLocked") && (!at_lock(s.state != 0) ==> result == nil)
+//@   modifies everything
+//
+//@ func (*inProcessServerStream).sendHeadersLocked
+//@   requires held(&s.mu) && s.state == 0 && !closed(s.responses) && s.responses != nil
+//@   ensures[C03] at_most_one_header_frame_and_none_when_empty: calls(writeMessage) <= 1 && (old(len(s.headers)) == 0 ==> !called(writeMessage))
+//@   assert_call[C03,C01] writeMessage : headers_frame_on_the_response_channel: arg0 == s.ctx && arg1 == nil && arg2 == s.responses && arg3.headers == s.headers && arg3.data == nil && arg3.trailers == nil && arg3.err == nil
+//@   ensures[C03] failed_send_keeps_the_headers_pending: result != nil ==> s.state == 0 && s.headers == old(s.headers)
+//@   ensures[C03] after_success_headers_are_sent_for_good: result == nil ==> s.state == 1 && s.headers == nil
+//@   ensures[C05] does_not_close: closed(s.responses) == old(closed(s.responses))
+//@   modifies s.headers, s.state
+//
+//@ func (*inProcessServerStream).finish
+//@   requires !held(&s.mu) && !closed(s.responses) && s.responses != nil
+//@   sole_closer s.responses
+//@   assert_call[C05] inprocgrpc.inProcessServerStream.onDone : done_is_signalled_before_the_lock_is_taken: !held(&s.mu) && !called(writeMessage)
+//@   ensures[C05] done_signalled_exactly_once: calls("inprocgrpc.inProcessServerStream.onDone") == 1
+//@   ensures[C05,C02] stream_closed_exactly_once_and_lock_released: closed(s.responses) && !held(&s.mu)
+//@   assert_call[C01,C05] writeMessage : final_frames_on_the_response_channel_under_the_lock: arg0 == s.ctx && arg1 == nil && arg2 == s.responses && held(&s.mu)
+//@   assert_call[C03] writeMessage : pending_headers_go_first: arg3.headers != nil ==> !called(writeMessage) && arg3.data == nil && arg3.trailers == nil && arg3.err == nil
+//@   assert_call[C03] writeMessage : trailers_before_the_error: arg3.headers == nil && arg3.trailers != nil ==> arg3.data == nil && arg3.err == nil && (!called(writeMessage) || lastarg(writeMessage, 3).headers != nil)
+//@   assert_call[C02] writeMessage : error_frame_is_the_handlers_error_and_comes_last: arg3.headers == nil && arg3.trailers == nil ==> arg3.data == nil && arg3.err == err && err != nil && (!called(writeMessage) || lastarg(writeMessage, 3).err == nil)
+//@   ensures[C02] a_failed_handler_always_gets_its_error_frame_attempted: err != nil ==> called(writeMessage) && lastarg(writeMessage, 3).err == err
+//@   ensures[C02] a_successful_handler_sends_no_error_frame: err == nil ==> !called(writeMessage) || lastarg(writeMessage, 3).err == nil
+//@   ensures[C20,C05] no_data_frames_from_finish: calls(writeMessage) <= 3
+//@   modifies s.state, s.trailers
+//
+//@ func (*inProcessServerStream).SendMsg
+//@   ensures[C05] after_the_end_sends_report_eof_and_send_nothing: !called(writeMessage) && !called("(*inProcessServerStream).sendHeadersLocked") ==> result != nil
+//@   assert_call[C03] (*inProcessServerStream).sendHeadersLocked : headers_flushed_before_the_first_message: arg0 == s && !called(writeMessage) && s.state == 0
+//@   assert_call[C06,C01] inprocgrpc.Cloner.Clone : of_the_handlers_message: arg0 == s.cloner && arg1 == m$entry
+//@   assert_call[C06,C01,C20] writeMessage : data_frame_carries_the_clone_never_the_original: arg0 == s.ctx && arg1 == nil && arg2 == s.responses && arg3.data == lastresult("inprocgrpc.Cloner.Clone", 0) && lastresult("inprocgrpc.Cloner.Clone", 1) == nil && arg3.headers == nil && arg3.trailers == nil && arg3.err == nil && s.state == 1 && held(&s.mu)
+//@   ensures[C20,C01] exactly_one_data_frame_per_successful_send: result == nil ==> calls(writeMessage) == 1
+//@   ensures[C20] never_more_than_one_data_frame_per_send: calls(writeMessage) <= 1
+//@   ensures[C06] nil_message_is_refused: called(isNil) && lastresult(isNil) ==> is_status_err(result) && err_status_code(result) == 13 && !called(writeMessage)
+//@   modifies s.headers, s.state, external
+//
+//@ func (*inProcessServerStream).RecvMsg
+//@   assert_call[C01,C04] readMessage : next_request_frame_with_the_stream_context: arg0 == s.ctx && arg1 == s.requests
+//@   ensures[C04,C05] receive_error_is_returned: lastresult(readMessage, 1) != nil ==> result == lastresult(readMessage, 1) && !called("inprocgrpc.Cloner.Copy")
+//@   assert_call[C06,C01] inprocgrpc.Cloner.Copy : request_is_copied_into_the_handlers_message: arg0 == s.cloner && arg1 == m && arg2 == lastresult(readMessage, 0).data
+//@   ensures[C01,C06] at_most_one_copy_per_receive: calls("inprocgrpc.Cloner.Copy") <= 1
+//@   modifies external
+
+// ---- inProcessClientStream (C01, C03, C04, C05, C06, C08, C20) ----
+//
+//@ type inProcessClientStream
+//@   guarded_by respMu : state, last, headers, trailers
+//@   guarded_by reqMu : sendClosed
+//@   closes_under reqMu : requests
+//@   invariant[C05] requests_closed_exactly_when_send_closed: (closed(self.requests) <==> self.sendClosed) && self.requests != nil
+//
+//@ func (*inProcessClientStream).CloseSend
+//@   sole_closer s.requests
+//@   ensures[C05] half_closed_exactly_once: result == nil && s.sendClosed && closed(s.requests)
+//@   modifies s.sendClosed
+//
+//@ func (*inProcessClientStream).SendMsg
+//@   ensures[C05] send_after_close_fails_and_sends_nothing: at_lock(s.sendClosed) ==> result != nil && !called(writeMessage)
+//@   ensures[C06] nil_message_is_refused: called(isNil) && lastresult(isNil) ==> is_status_err(result) && err_status_code(result) == 13 && !called(writeMessage)
+//@   assert_call[C06,C01] inprocgrpc.Cloner.Clone : of_the_callers_message: arg0 == s.cloner && arg1 == m$entry
+//@   assert_call[C06,C01,C05,C20] writeMessage : data_frame_carries_the_clone_and_gives_up_when_the_server_is_done: arg0 == s.ctx && arg1 == s.svrCtx && arg2 == s.requests && arg3.data == lastresult("inprocgrpc.Cloner.Clone", 0) && lastresult("inprocgrpc.Cloner.Clone", 1) == nil && arg3.headers == nil && arg3.trailers == nil && arg3.err == nil && held(&s.reqMu) && !s.sendClosed
+//@   ensures[C20,C01] exactly_one_data_frame_per_successful_send: result == nil ==> calls(writeMessage) == 1
+//@   ensures[C20] never_more_than_one_frame_per_send: calls(writeMessage) <= 1
+//@   modifies external
+//
+//@ func (*inProcessClientStream).Trailer
+//@   ensures[C03] result == at_lock(s.trailers)
+//@   modifies nothing
+//
+//@ func (*inProcessClientStream).RecvMsg
+//@   ensures[C08,C01] delegates_under_the_lock_with_single_response_mode: calls("(*inProcessClientStream).recvMsgLocked") == 1 && result == lastresult("(*inProcessClientStream).recvMsgLocked")
+//@   assert_call[C08] (*inProcessClientStream).recvMsgLocked : last_message_iff_not_response_streaming: arg0 == s && arg1 == m && (arg2 <==> !s.responseStream) && held(&s.respMu)
+//@   modifies everything
+//
+//@ func (*inProcessClientStream).recvMsgLocked
+//@   requires held(&s.respMu)
+//@   loop loop#1 invariant[C01,C08] nothing_delivered_yet: !called("inprocgrpc.Cloner.Copy") && !called("(*inProcessClientStream).ensureNoMoreLocked") && !called("internal.TranslateContextError") && held(&s.respMu)
+//@   ensures[C01,C06] at_most_one_copy_into_the_callers_message: calls("inprocgrpc.Cloner.Copy") <= 1
+//@   assert_call[C06,C01] inprocgrpc.Cloner.Copy : into_the_callers_message: arg0 == s.cloner && arg1 == m
+//@   ensures[C04,C02] every_failure_before_a_message_is_translated: !called("inprocgrpc.Cloner.Copy") ==> called("internal.TranslateContextError") && result == lastresult("internal.TranslateContextError")
+//@   ensures[C08] single_response_mode_checks_for_extra_messages: lastMessage && called("inprocgrpc.Cloner.Copy") && lastresult("inprocgrpc.Cloner.Copy") == nil ==> calls("(*inProcessClientStream).ensureNoMoreLocked") == 1 && result == lastresult("(*inProcessClientStream).ensureNoMoreLocked")
+//@   ensures[C01] streaming_mode_returns_the_copy_result: !lastMessage && called("inprocgrpc.Cloner.Copy") ==> result == lastresult("inprocgrpc.Cloner.Copy") && !called("(*inProcessClientStream).ensureNoMoreLocked")
+//@   ensures[C01] copy_error_is_returned: called("inprocgrpc.Cloner.Copy") && lastresult("inprocgrpc.Cloner.Copy") != nil ==> result == lastresult("inprocgrpc.Cloner.Copy")
+//@   assert_call[C03] (*internal.CallOptions).SetHeaders : header_frame_to_stream_and_options: arg0 == s.copts && arg1 == r.headers && s.headers == r.headers && r.headers != nil
+//@   assert_call[C03] (*internal.CallOptions).SetTrailers : trailer_frame_to_stream_and_options: arg0 == s.copts && arg1 == r.trailers && s.trailers == r.trailers && r.trailers != nil
+//@   assert_call[C01,C04] readMessage : next_response_frame_with_the_stream_context: arg0 == s.ctx && arg1 == s.responses
+//@   modifies s.state, s.last, s.headers, s.trailers, mem("metadata.MD"), mem("error"), external
+//
+//@ func (*inProcessClientStream).ensureNoMoreLocked
+//@   requires held(&s.respMu)
+//@   ensures[C08] probes_once_for_another_message: calls("(*inProcessClientStream).recvMsgLocked") == 1
+//@   assert_call[C06,C08] (*inProcessClientStream).recvMsgLocked : probe_never_touches_the_callers_message: arg0 == s && arg1 != m && !arg2
+//@   ensures[C08] a_second_message_is_an_internal_error: lastresult("(*inProcessClientStream).recvMsgLocked") == nil ==> is_status_err(result) && err_status_code(result) == 13 && s.state == 2 && s.last != nil && s.last.err == result
+//@   ensures[C08] clean_end_is_success: lastresult("(*inProcessClientStream).recvMsgLocked") == io.EOF ==> result == nil
+//@   ensures[C02,C08] a_failure_after_the_message_takes_precedence: lastresult("(*inProcessClientStream).recvMsgLocked") != nil && lastresult("(*inProcessClientStream).recvMsgLocked") != io.EOF ==> result == lastresult("(*inProcessClientStream).recvMsgLocked")
+//@   modifies s.state, s.last, s.headers, s.trailers, mem("metadata.MD"), mem("error"), external
